@@ -115,6 +115,12 @@ class _PsbtRound:
         self.agg = b""
 
 
+def _handed(ch: Any, sec: bytearray) -> Any:
+    """The secnonce as a caller hands it over: the bytearray nonce_gen returned, or a writable view of it (what a
+    caller that keeps its nonces in one arena passes). Either way it is the one buffer, and it signs once."""
+    return memoryview(sec) if ch.draw(3, "sec.handed-as-view") == 0 else sec
+
+
 def _nonce_history(ctx: Ctx, rng: SimRng) -> None:
     from btclib.ecc import musig2  # noqa: PLC0415
     from btclib.psbt import musig2 as pm  # noqa: PLC0415
@@ -192,10 +198,10 @@ def _nonce_history(ctx: Ctx, rng: SimRng) -> None:
             i = ch.draw(len(pr.prv), "p.signer")
             try:
                 if op == "psbt-sign":
-                    sig = pm.partial_sign(pr.psbt, 0, pr.sec[i], pr.prv[i], pr.agg)
+                    sig = pm.partial_sign(pr.psbt, 0, _handed(ch, pr.sec[i]), pr.prv[i], pr.agg)
                 else:
                     # the same secnonce handed to the free function, on the session the psbt describes
-                    sig = musig2.sign(pr.sec[i], pr.prv[i], pm.session_context(pr.psbt, 0, pr.agg).context)
+                    sig = musig2.sign(_handed(ch, pr.sec[i]), pr.prv[i], pm.session_context(pr.psbt, 0, pr.agg).context)
             except LIB_ERRORS as e:
                 ctx.log(op, i, "refused", type(e).__name__)
             else:
@@ -214,7 +220,7 @@ def _nonce_history(ctx: Ctx, rng: SimRng) -> None:
             sess = r.ctx_good if op == "sign" else r.ctx_other
             before = bytes(r.sec[i])
             try:
-                sig = musig2.sign(r.sec[i], r.prv[i], sess)
+                sig = musig2.sign(_handed(ch, r.sec[i]), r.prv[i], sess)
             except LIB_ERRORS as e:
                 ctx.log(op, i, "refused", type(e).__name__)
                 if r.signed[i] == 0 and before[:64] != bytes(64):
